@@ -226,17 +226,17 @@ Proof.
     cbn [read_data_type enc_dt]; rewrite <- app_assoc; unfold bind at 1; rewrite read_short_app by exact Hcode;
     rewrite check_dt_code; cbn [dt_code] in *.
   - cbn [dt_okb] in Hok. destruct (primitive_codes_facts c Hok) as (Hv & _). rewrite Hv, Hok. reflexivity.
-  - cbn [dt_okb] in Hok. eval_closed_tests. cbn [rguard]. unfold bind at 1, ret at 1.
+  - cbn [dt_okb] in Hok. eval_closed_tests. cbn [rguard andb]. unfold bind at 1, ret at 1.
     unfold bind at 1. rewrite read_string_app by lia. reflexivity.
-  - cbn [dt_okb] in Hok. destruct e as [t'|]; [|discriminate]. cbn [PO] in IHe. eval_closed_tests. cbn [rguard].
+  - cbn [dt_okb] in Hok. destruct e as [t'|]; [|discriminate]. cbn [PO] in IHe. eval_closed_tests. cbn [rguard andb].
     unfold bind at 1, ret at 1. unfold bind at 1. cbn [dt_depth] in Hfuel. rewrite IHe by (try exact Hok; lia). reflexivity.
   - cbn [dt_okb] in Hok. destruct k as [kt|]; [|discriminate]. destruct v as [vt|]; [|rewrite andb_false_r in Hok; discriminate].
-    apply andb_prop in Hok. destruct Hok as [Hk Hv]. cbn [PO] in IHk, IHv. eval_closed_tests. cbn [rguard].
+    apply andb_prop in Hok. destruct Hok as [Hk Hv]. cbn [PO] in IHk, IHv. eval_closed_tests. cbn [rguard andb].
     unfold bind at 1, ret at 1. cbn [dt_depth] in Hfuel. rewrite <- app_assoc.
     unfold bind at 1. rewrite IHk by (try exact Hk; lia). unfold bind at 1. rewrite IHv by (try exact Hv; lia). reflexivity.
-  - cbn [dt_okb] in Hok. destruct e as [t'|]; [|discriminate]. cbn [PO] in IHe. eval_closed_tests. cbn [rguard].
+  - cbn [dt_okb] in Hok. destruct e as [t'|]; [|discriminate]. cbn [PO] in IHe. eval_closed_tests. cbn [rguard andb].
     unfold bind at 1, ret at 1. unfold bind at 1. cbn [dt_depth] in Hfuel. rewrite IHe by (try exact Hok; lia). reflexivity.
-  - cbn [dt_okb] in Hok. apply andb_prop in Hok. destruct Hok as [Hn Hall]. eval_closed_tests. cbn [rguard].
+  - cbn [dt_okb] in Hok. apply andb_prop in Hok. destruct Hok as [Hn Hall]. eval_closed_tests. cbn [rguard andb].
     unfold bind at 1, ret at 1. rewrite <- app_assoc. pose proof (zlen_nonneg fs).
     unfold bind at 1. rewrite read_short_app by (unfold in_u16; lia).
     unfold bind at 1.
@@ -248,7 +248,7 @@ Proof.
       cbn [dt_depth] in Hfuel. pose proof (fold_max_in (fun o => match o with Some t' => dt_depth t' | None => O end) fs (Some t') Ho). cbn beta iota in *. lia.
     + intros o Ho. rewrite forallb_forall in Hall. specialize (Hall o Ho). destruct o as [t'|]; [|discriminate].
       pose proof (enc_dt_min t'). lia.
-  - cbn [dt_okb] in Hok. repeat (apply andb_prop in Hok; destruct Hok as [Hok ?]). eval_closed_tests. cbn [rguard].
+  - cbn [dt_okb] in Hok. repeat (apply andb_prop in Hok; destruct Hok as [Hok ?]). eval_closed_tests. cbn [rguard andb].
     unfold bind at 1, ret at 1. rewrite <- !app_assoc.
     unfold bind at 1. rewrite read_string_app by lia. unfold bind at 1. rewrite read_string_app by lia.
     pose proof (zlen_nonneg types). unfold bind at 1. rewrite read_short_app by (unfold in_u16; lia).
